@@ -15,6 +15,9 @@ PROPS = {
                 "mutators: unknown keys, wrong types, dropped keys, actor equal/different/case/padded, reason, path and pid_file exact/alias/symlink/inside/"
                 "dot-dot/absolute foreign/free-form, mode, content valid/invalid/arbitrary, ids, filters, items). "
                 "non-trivial = exactly one gate fails, or an allowed mutating call, or an allowed config-writing call with a foreign path; distinct by SHA-256 of the case JSON. "
+                "input-hash tier (TestProp_C20_InputHash): the same id-mutation call (ids with and without surrounding blanks, reason / actor / request_id) is sent to a server that runs it, one that denies it "
+                "because mutations are off and one that denies it because of its role, each on a copy of one queue; the three audit records must carry the same input hash (what was supplied does not depend on what became "
+                "of the call) and another id list another hash; non-trivial = an id with surrounding blanks. "
                 "command-line tier (TestProp_C20_CLI): one real `hookaido mcp serve` process per case, started with generated flags (--role absent/read/operate/admin/"
                 "non-role, --enable-mutations, --enable-runtime-control, --principal absent/present/blank) over the same fixture; tools/list and 1-5 tools/call (minimal valid "
                 "arguments) are sent over stdin and judged by the same table; a session in which no mutating call is allowed must leave the fixture tree untouched; "
@@ -34,6 +37,7 @@ PROPS = {
             {"engine": "mcpgate", "test": "TestProp_C20_Exhaustive", "quick": 6336, "thorough": 10560, "native": True,
              "shards": {"quick": 2, "thorough": 2}, "env": {"VERIF_NSHARDS": 2}},
             {"engine": "mcpgate", "test": "TestProp_C20_Table", "quick": 10000, "thorough": 400000},
+            {"engine": "mcpgate", "test": "TestProp_C20_InputHash", "quick": 400, "thorough": 20000, "shards": {"quick": 4}},
             {"engine": "mcpgate", "test": "TestProp_C20_CLI", "quick": 400, "thorough": 20000, "shards": {"quick": 8, "thorough": 16}, "needs_bins": ["hookaido"]},
         ],
     },
